@@ -254,7 +254,22 @@ func (t *ImmutableTree) Iterator(start, end []byte, ascending bool) (corestore.I
 
 		if isFastCacheEnabled {
 			verifYield("iter:checked")
-			return NewFastIterator(start, end, ascending, t.ndb), nil
+			itr := NewFastIterator(start, end, ascending, t.ndb)
+			// A commit may have begun between the check above and the creation of the iterator.
+			// SaveVersion advances the latest version before it rewrites the index, so the index
+			// this iterator reads still describes t.version exactly if t.version is still the
+			// latest version now; otherwise the tree is walked.
+			stillLatest, err := t.isLatestTreeVersion()
+			if err != nil {
+				itr.Close()
+				return nil, err
+			}
+			if stillLatest {
+				return itr, nil
+			}
+			if err := itr.Close(); err != nil {
+				return nil, err
+			}
 		}
 	}
 	return NewIterator(start, end, ascending, t), nil
